@@ -205,13 +205,14 @@ class TextGen:
                     fdoc = ("mentions-sibling", f" export type {first.name} = number;")
                 it = self.mk("named", docs=doc_attr_lines(r, t, form), export_to=path,
                              fields=[Field("m", prim("i32"), docs=doc_attr_lines(r, fdoc, "line"))])
-                first = first or it
+                if first is None:
+                    first, first_form = it, form
                 self.add(it, position="merge", cls=t[0], text=t[1], pair=f"{self.prefix}p{k}", form=form,
                          field_cls=fdoc[0])
                 if j == 1:
                     # one root that reaches both: a single export_all merges the two into their file
                     holder = self.mk("named", fields=[Field("one", Ty("user", item=first)), Field("two", Ty("user", item=it))])
-                    self.add(holder, position="merge-holder", cls=t[0], text=None, form=form, field_cls=fdoc[0])
+                    self.add(holder, position="merge-holder", cls=t[0], text=None, form=form, forms=[first_form, form], field_cls=fdoc[0])
 
     def finish(self):
         self.g.items = self.items
